@@ -693,6 +693,9 @@ func (e *Env) call(x *ECall) Val {
 		if t.Sort == SSlice {
 			t = slBase(t)
 		}
+		if t.Sort == SIface {
+			t = ifVal(t)
+		}
 		return termVal(Gt(t, r.heapGet(e.old, "$top")), boolT)
 	case "alloc":
 		// alloc(p): p designates an object that exists in the current state (or is nil)
